@@ -162,8 +162,8 @@ def run(ctx):
                 'random fair interleavings; non-trivial = >= 2 components and a schedule longer than 3 events per component; '
                 'distinct by (W, outcomes, schedule)')
     terms = []
-    nfam = 60 if ctx.tier == 'quick' else 1500
-    nsched = 12 if ctx.tier == 'quick' else 25
+    nfam = 60 if ctx.tier == 'quick' else 400
+    nsched = 12 if ctx.tier == 'quick' else 20
     # corpus: F2 witness (observer of a subject that is shut down)
     W = [SC.comp(sd=['KnownIssue']), SC.comp(preds=[0], rep=True)]
     run_family(ctx, W, {0: ['KnownIssue'], 1: ['Success']}, nsched, terms)
